@@ -1803,7 +1803,7 @@ func main() {
 	}
 	nConc := 0
 	if (o.Replay == "" && os.Getenv("C11_ONLY") != "gates") || replayConc >= 0 {
-		per := o.Scale(4, 150)
+		per := o.Scale(10, 150) // schedule-dependent failures (a race with Close) show in a fraction of the runs only
 		var cw sync.WaitGroup
 		var cmu sync.Mutex
 		sem := make(chan struct{}, 16)
